@@ -34,6 +34,7 @@ type HarnessEntry struct {
 	Float         string   // "" = E2 with relative-error bound, "mono" = monotonic anchors only
 	Doc           string
 	Preempt       int // preemption bound (0 = unbounded, all interleavings with sleep sets)
+	PreemptThorough int // the bound used by the thorough tier
 	Recycle       int // restart solver + term context once this many float-axiom terms have accumulated (0 = default: after every run that used float axioms)
 }
 
@@ -111,7 +112,11 @@ func (w *Worker) noteCat(t, a, b *Term) {
 func (w *Worker) noteFunc(fn *ssa.Function) { w.funcs[fn] = true }
 func (w *Worker) noteStub(name string)       { w.stubsHit[name] = true }
 
+var outcomeLog = os.Getenv("VERIF_OUTCOMES") != ""
+
 type Driver struct {
+	outcomes map[string]int
+	preemptOverride int // VERIF_PREEMPT (probing aid)
 	prop      string
 	tier      int
 	tierName  string
@@ -269,6 +274,24 @@ func (d *Driver) workerLoop(w *Worker, entry *HarnessEntry, deadline time.Time) 
 		d.active--
 		if r.sched.pruned {
 			d.pruned++
+		} else if outcomeLog {
+			// validation aid: the set of distinct run outcomes must not depend on the reduction
+			var ks []string
+			for c := range r.covers {
+				ks = append(ks, c)
+			}
+			sort.Strings(ks)
+			o := entry.Name + "|" + strings.Join(ks, ",") + "|" + strings.Join(r.obs, ",")
+			if r.viol != nil {
+				o += "|" + r.viol.Kind + ":" + r.viol.Msg
+			}
+			if r.inconclusive != "" {
+				o += "|inconclusive"
+			}
+			if d.outcomes == nil {
+				d.outcomes = map[string]int{}
+			}
+			d.outcomes[o]++
 		}
 		d.states++
 		d.transitions += r.steps
@@ -299,7 +322,7 @@ func (d *Driver) workerLoop(w *Worker, entry *HarnessEntry, deadline time.Time) 
 		if r.viol != nil {
 			r.viol.Msg = entry.Name + ": " + r.viol.Msg
 			d.violations = append(d.violations, r.viol)
-			if d.countUnknownViolations() >= 3 {
+			if d.countUnknownViolations() >= 3 && !outcomeLog {
 				d.stop = true
 			}
 		}
@@ -425,7 +448,22 @@ func (d *Driver) writeEvidence(workers []*Worker, wall time.Duration, verdict st
 		notes = append(notes, n)
 	}
 	sort.Strings(notes)
+	schedBounds := map[string]string{}
+	for _, e := range d.entries {
+		if !e.Tiers[d.tierName] {
+			continue
+		}
+		switch b := d.preemptBound(e); {
+		case e.GoSync:
+			schedBounds[e.Name] = "sequential (go statements run inline)"
+		case b > 0:
+			schedBounds[e.Name] = fmt.Sprintf("all schedules with at most %d preemption(s); switches at blocking points are free", b)
+		default:
+			schedBounds[e.Name] = "all interleavings at synchronisation points (sleep-set reduced)"
+		}
+	}
 	cov := map[string]interface{}{
+		"schedule_bounds":               schedBounds,
 		"states":                        d.states,
 		"transitions":                   d.transitions,
 		"traces_validated_against_impl": nativeValidated,
@@ -492,6 +530,23 @@ func (d *Driver) assumptions() []string {
 		}
 	}
 	return a
+}
+
+func (d *Driver) preemptBound(e *HarnessEntry) int {
+	if d.preemptOverride > 0 {
+		return d.preemptOverride
+	}
+	if e.Preempt <= 0 {
+		return -1
+	}
+	b := e.Preempt
+	if d.tier > 0 {
+		b = e.PreemptThorough
+	}
+	if d.preemptOverride > 0 {
+		b = d.preemptOverride
+	}
+	return b
 }
 
 func (d *Driver) isCovered(entry, label string) bool {
